@@ -233,7 +233,7 @@ impl Writer {
         let cache = self.cache;
         let writer_sri = self.writer.close().await?;
         if let Some(sri) = &self.opts.sri {
-            if sri.matches(&writer_sri).is_none() {
+            if !declared_integrity_matches(sri, &writer_sri) {
                 return Err(ssri::Error::IntegrityCheckError(sri.clone(), writer_sri).into());
             }
         } else {
@@ -587,7 +587,7 @@ impl SyncWriter {
         let cache = self.cache;
         let writer_sri = self.writer.close()?;
         if let Some(sri) = &self.opts.sri {
-            if sri.matches(&writer_sri).is_none() {
+            if !declared_integrity_matches(sri, &writer_sri) {
                 return Err(ssri::Error::IntegrityCheckError(sri.clone(), writer_sri).into());
             }
         } else {
@@ -606,6 +606,21 @@ impl SyncWriter {
         } else {
             Ok(writer_sri)
         }
+    }
+}
+
+/// Does `computed` -- the integrity of the data as hashed by the writer --
+/// satisfy the integrity the caller declared?
+///
+/// As everywhere in SRI, the strongest algorithm of the declaration governs:
+/// it is the one `Integrity::check` verifies and the one that addresses the
+/// content once the declaration is recorded in the index. So it has to be the
+/// algorithm the writer hashed with, and its digest has to be the computed one.
+/// A declaration that only agrees in some weaker algorithm does not match.
+pub(crate) fn declared_integrity_matches(declared: &Integrity, computed: &Integrity) -> bool {
+    match (declared.hashes.first(), computed.hashes.first()) {
+        (Some(d), Some(c)) => d.algorithm == c.algorithm && declared.matches(computed).is_some(),
+        _ => false,
     }
 }
 
